@@ -1,5 +1,5 @@
 from numpy import diagonal, diag, sqrt, log
-from numpy import array, eye, ndarray, zeros
+from numpy import array, eye, ndarray, zeros, atleast_1d
 from numpy.random import random
 from numpy.linalg import cholesky, LinAlgError
 from scipy.linalg import solve_triangular
@@ -93,7 +93,8 @@ class GpRegressor:
         # store the data
         self.x = x if isinstance(x, ndarray) else array(x)
         self.y = y if isinstance(y, ndarray) else array(y)
-        self.y = self.y.squeeze()
+        # (a single data point must stay a length-1 array)
+        self.y = atleast_1d(self.y.squeeze())
 
         if self.y.ndim != 1:
             raise ValueError(
@@ -247,7 +248,7 @@ class GpRegressor:
         if y_cov is not None:
             # if y_cov is given as a list or tuple, attempt conversion to an array
             if any([type(y_cov) is t for t in [list, tuple]]):
-                y_err = array(y_cov).squeeze()
+                y_cov = array(y_cov)
             elif type(y_cov) is not ndarray:
                 # else if it isn't already an array raise an error
                 raise TypeError(
@@ -295,7 +296,7 @@ class GpRegressor:
         elif y_err is not None:
             # if y_err is given as a list or tuple, attempt conversion to an array
             if any([type(y_err) is t for t in [list, tuple]]):
-                y_err = array(y_err).squeeze()
+                y_err = atleast_1d(array(y_err).squeeze())
             elif type(y_err) is not ndarray:
                 # else if it isn't already an array raise an error
                 raise TypeError(
